@@ -371,7 +371,7 @@ PROPS = {
     },
     "C13": {
         "lean_files": ["AriesVerif/C13/Locks.lean", "AriesVerif/C13/Spec.lean", "AriesVerif/C13/Interleave.lean",
-                       "AriesVerif/C13/Drv.lean"],
+                       "AriesVerif/C13/Atomic.lean", "AriesVerif/C13/Textbook.lean", "AriesVerif/C13/Drv.lean"],
         "lake_targets": ["AriesVerif"],
         "race": True,
         "level": "proof",
